@@ -8,7 +8,7 @@ ENV = "GOFLAGS=-mod=mod GOPROXY=off GOSUMDB=off GOTOOLCHAIN=local GOWORK=off"
 # property -> (technique, level text, level note, design ref)
 CLAIMED = {
     "C02": (
-        "index-space typing over go/ssa (IDX-1..5: positions vs vertex ids vs attribute positions vs primitive numbers, kinds from type-resolved sources), attribute-family completeness and lock-step control equivalence (FAM-1/2, WF-1), must-pass-through of index remap loops (REMAP-1), length pairing of the append helper (FILL-1, PAIR-2), generator array-length agreement as polynomials and multiple-of-three growth (GEN-LEN, GEN-3), interval-polynomial bound of generator index formulas against the vertex count with coefficient certificate / grid witness (GEN-BOUND)",
+        "index-space typing over go/ssa (IDX-1..5: positions vs vertex ids vs attribute positions vs primitive numbers, kinds from type-resolved sources), attribute-family completeness and lock-step control equivalence (FAM-1/2, WF-1), must-pass-through of index remap loops (REMAP-1), length pairing of the append helper (FILL-1, PAIR-2), generator array-length agreement as polynomials and multiple-of-three growth (GEN-LEN, GEN-3), interval-polynomial bound of generator index formulas against the vertex count with coefficient certificate / grid witness (GEN-BOUND), keep-decision granularity against the interpreted Topology.IndexSize table (GRP-1), dominator check of operand enumeration (PAIR-3)",
         "Decides for every mesh operation in modeling/** and every path: attribute data and per-vertex tables are never subscripted with a position of the index array, "
         "no bare position is written as a vertex id into an index array that keeps the input's attributes (SetIndices, Mesh literals, NewMesh arrays other than the identity fill), "
         "the index array is never subscripted with a vertex id, a vertex id is only offset by a vertex count, every function that rebuilds attribute arrays handles all four "
@@ -80,7 +80,7 @@ CLAIMED.update({
         "DESIGN.md 4 C06; checker/props/c06/REPORT.md",
     ),
     "C07": (
-        "wire sizes from go/types (encoding/binary semantics), symbolic byte count of the write sequence, writer/reader step-sequence agreement, exact-cover decision for affine subscripts, dependency-shape and polynomial direction check of the normals on go/ssa over formats/stl",
+        "wire sizes from go/types (encoding/binary semantics), symbolic byte count of the write sequence, writer/reader step-sequence agreement, exact-cover decision for affine subscripts, dependency-shape, all-paths normalisation slice (NRM-PATH) and polynomial direction check of the normals on go/ssa over formats/stl",
         "Decides exactly, for every n including 0: Header 80 + count 4 + Triangle 50 (12 float32 + uint16, field order Normal, Vertex1..3, Attribute) so stl.Write emits 84 + 50*len(Triangles) bytes on every success path and WriteMesh hands it PrimitiveCount() records; "
         "Write and Read perform the same step sequence with the same static types and binary.LittleEndian, count written = len, slice read sized by the count read; record i built from Tri(i), Vertex k from corner Pk of Position, axis a from getter a, reader stores Vertex k at 3i+k-1, identity indices over 3n (exact cover); "
         "facet normal depends on the three corner normals of the same triangle through Normalized, fallback on the three vertices through Cross, direction as polynomial identity up to a positive factor. float32 rounding and normal length are not decided.",
@@ -88,7 +88,7 @@ CLAIMED.update({
         "DESIGN.md 4 C07; checker/props/c07/REPORT.md",
     ),
     "C08": (
-        "offset-accumulation linear forms over the eight build* functions, alias/grammar table completeness, quad-fan tabulation, header-parser arm disjointness, claim bookkeeping, error discipline - def-use and CFG rules on go/ssa over formats/ply readers",
+        "offset-accumulation linear forms over the eight build* functions, alias/grammar table completeness, quad-fan tabulation, header-parser arm disjointness, claim bookkeeping, error discipline, package-level storage write/observe analysis of the decoder (STATE-1) - def-use and CFG rules on go/ssa over formats/ply readers",
         "Decides for every header layout in the stated grammar (not sampled headers): the byte offset captured for a component is the sum of the sizes of all preceding properties and is advanced exactly once per property on every path (LAY-4); ASCII columns are ordinals; "
         "both spec spellings of all eight types map to the right size, every scalar/count/list combination of the grammar has a case in v1..v4 x ASCII/binary (LAY-3); component x is read at xOffset into slot X (AXIS-1); a vector group's type is first-wins with offset reset on mismatch (LAY-9); "
         "quads yield the fan (0,1,2),(0,2,3) for indices and texcoords in both readers (LAY-8); comment/obj_info/blank/CR handling and property-to-last-element attachment (HDRP-1); exactly one scalar reader per unclaimed property (CLAIM-2/3); record i to slot i (REC-1); no decode error dropped (IO-3). "
@@ -97,7 +97,7 @@ CLAIMED.update({
         "DESIGN.md 3.6, 4 C08; checker/props/c08/REPORT.md",
     ),
     "C09": (
-        "exhaustive evaluation of the 256-case table and edge tables read from the type-checked source against a corner model extracted from SSA (layout, sample provenance, case bits, polarity, vertex formula, emission order); rational-function identity for the interpolant; axis-tag, stride/exact-cover, padding, cross-block, allocator, merge/weld rules on go/ssa",
+        "exhaustive evaluation of the 256-case table and edge tables read from the type-checked source against a corner model extracted from SSA (layout, sample provenance, case bits, polarity, vertex formula, emission order); rational-function identity for the interpolant; axis-tag, stride/exact-cover, padding, cross-block, allocator, merge/weld rules and backward slices of skip decisions (CELL-1) on go/ssa",
         "Decides exhaustively over all 256 sign configurations x 6 faces and 12 edges, with the corner numbering read from the code rather than assumed: each edge joins corners differing in one axis; every case's triangles use exactly the sign-changing edges, no directed edge twice, every unmatched directed edge lies on one cube face, "
         "the segments on a face are a function of that face's four signs and the opposite face gives the reversed set (any two adjacent cells close against each other), orientation is consistent with the strict polarity the code uses for all eight corners, existence bit k is 1<<k, the per-corner lists agree with the edge tables, the tables are never written. "
         "Also: the emitted vertex is the affine interpolant between the two corner samples of the same edge entry; x/y/z are never swapped; the linear index is a bijection onto the S^3 cells allocated; the domain is padded by one cell on all axes; the cross-block corner fetch resets each axis with itself, exactly on the last cell, at the right block; block coordinates use floor; all blocks are merged and welded on the marched attribute. "
@@ -138,7 +138,7 @@ CLAIMED.update({
         "DESIGN.md 3.7, 4 C13; checker/props/c13/REPORT.md",
     ),
     "C14": (
-        "path-sensitive exploration of the SSA CFG from the exhausted outcome of every input call (nil-ness abstract state), error-use analysis, loop progress analysis, pre-sized-array exit analysis, token-count guards - over formats/ply, stl, spz, splat, pts decoders",
+        "path-sensitive exploration of the SSA CFG from the exhausted outcome of every input call (nil-ness abstract state), error-use analysis, loop progress analysis, pre-sized-array exit analysis, token-count guards and line-freshness of token containers (TOK-4) - over formats/ply, stl, spz, splat, pts decoders",
         "Decides, with each read call an obligation (cut positions do not appear in the argument): Scan() in a loop is tested (IO-1); from 'this call came up short' no path reaches a nil-error return except after the record counter reached the declared count or, for the count-less .splat stream, with nothing taken from the failed read (IO-2); "
         "no error of an input call or decode helper is dropped (IO-3); no reading loop can return to its head without consuming input or advancing its counter (IO-4); raw Read's n is used (IO-5); arrays pre-sized from a declared count are returned only when the filling loop left through its counter and every counted record stored an element (PRE-1/2); "
         "tokens of a body line are length-tested before being indexed (TOK-1). For the listed formats this is the structural content of the property for all cut positions at once; allocation size, header-text truncation that still parses and gzip framing are not covered.",
@@ -146,7 +146,7 @@ CLAIMED.update({
         "DESIGN.md 3.5, 4 C14; checker/props/c14/REPORT.md",
     ),
     "C17": (
-        "symbolic interpretation of go/ssa with polynomial / rational-function normal forms (big.Rat), callee inlining into the vector dependency, one-symbolic-iteration loop summaries; dataflow shadow (SYM-DEP); min/max normal forms for boxes; axis-tag dataflow",
+        "symbolic interpretation of go/ssa with polynomial / rational-function normal forms (big.Rat), callee inlining into the vector dependency, one-symbolic-iteration loop summaries; dataflow shadow (SYM-DEP); min/max normal forms for boxes; axis-tag dataflow; contradiction rule on degeneracy guards (NORM-1)",
         "Decides as polynomial identities over the reals (floating-point rounding outside): Matrix4x4.Add entry-wise, Multiply row-by-column, Identity, MulPosition affine action and its agreement with Multiply, Determinant = Leibniz, a*Inverse(a) = I = Inverse(a)*a cross-multiplied by det; "
         "Quaternion.Multiply = Hamilton product, Rotate = q v conj(q), |Rotate(q,v)|^2 = |q|^4 |v|^2, Rotate(p*q, v) = Rotate(p, Rotate(q, v)), identity laws, Normalize, RotationTo on its general branch modulo unit inputs; TRS.Transform = R(S*v)+T; "
         "Mesh.Rotate/Translate/Scale/ApplyTRS apply the underlying transform to Position element-wise over the full range with their parameter; AABB laws stated through Min()/Max() (EncapsulatePoint/Bounds, ClosestPoint clamp, Contains/Intersects as the six interval tests, NewAABBFromPoints running min/max) and no comparison/min/max pairs different axes. "
@@ -155,7 +155,7 @@ CLAIMED.update({
         "DESIGN.md 3.4, 4 C17; checker/props/c17/REPORT.md",
     ),
     "C15": (
-        "byte-range tiling and writer/reader agreement of the 32-byte .splat record, inverse-function chain pairing, exact-cover decision for affine plane subscripts with symbolic strides, plane order, sign-extension and dequantisation constants, PLY splat property agreement - on go/ssa",
+        "byte-range tiling and writer/reader agreement of the 32-byte .splat record, inverse-function chain pairing, exact-cover decision for affine plane subscripts with symbolic strides, plane order, sign-extension and dequantisation constants, PLY splat property agreement, interval analysis of every float-to-byte narrowing of the writer (QRANGE-1) - on go/ssa",
         "Decides for every count, SH degree and fractional-bit count: the .splat writer emits 32 bytes per splat whose ranges the reader's constant offsets tile exactly, per attribute and component in axis order, with the reader's value map the reversed chain of inverses of the writer's (Exp/Log, *c//c, +c/-c with equal constants, logistic pair); "
         "the SPZ header is 16 bytes in the published order, planes are read in the published order, plane sizes 9N/6N, N, 3N, 3N, 3N, 3*N*shDim, every output array is make(..., NumPoints), each plane subscript covers its plane exactly once (per-point SH stride 3*shDim), 24-bit little-endian assembly with sign test on bit 23 and mask 0xff000000, "
         "SH dimension table {0,3,8,15}, published dequantisation maps, half-float bit fields; the PLY splat export's property names/types match the default reader's. Layout exactness, not value tolerances.",
@@ -191,24 +191,26 @@ CLAIMED.update({
 })
 
 # rules added after the rounds of seeded defects / refactorings (appended to the level note of each claim)
+TECH_ADD = {"C03": "; origin analysis of the point-cloud index array (identity fill, PC-1)"}
+
 ADDED = {
  "C01": "Added in round 2: OWN-6 (no store through a *Material obtained from a mesh), OWN-7 (no Mesh assigned through a *Mesh handle the function did not create); results of external generic calls are classified (slices.Grow & co. alias their argument; an unclassified non-parameter operand is UNDECIDED). Added in the last rounds: OWN-6 follows by-value copies of a material that still hold its pointers; OWN-2 traces hand-offs through the returns of analysed callees and through maps kept in package variables (a slice kept in a package variable is not the caller's own: appending to it and handing it to a mesh is reported; adding an entry to the cache is not).",
- "C02": "Added in round 2: GEN-BOUND is path-sensitive (one candidate interval per phi edge, counters narrowed by == / != guards, case split over boolean parameters, enclosing loops assumed to run) with interprocedural slice lengths; FAM-3 (the four families' new arrays are made with one length); GEN-LEN conditional growth (an array that can skip an element inside its loop next to a sibling with a fixed count); IDX-6 (a vertex id is never offset by a constant). Added in the last rounds: ORD-2 over the mesh operations and generators (no closure or pointer keeps a per-loop variable beyond its iteration under the pre-1.22 loop semantics go.mod selects), ITER-1 (no accessor iterator is drained with Next() across repetitions without Reset; zero instances on the tree, positive control on every run), FILL-1 through function literals with a floor of two fills, GEN-LEN for arrays grown by a function literal through a captured variable (elements per call x calls).",
- "C03": "Added in round 2: NEIGH-5/6, CROP-1/2, RENUM-1, DEGEN-1 (weld keeps a triangle exactly when its three rounded corners differ: five equality patterns), SPLIT-1 (the accumulator a primitive is appended to is current for the range cursor on every path), AREA-1 (RemoveNullFaces3D keeps exactly area > minArea with area = 1/2 |cross| as an identity), SHAPE-4 refuses spawned element loops whose partition is not decided, IDX-6. Added in the last rounds: NEIGH-7 (the vertex neighbour table links per topology: list topologies advance by their group size and link inside one group, strip / loop topologies link consecutive indices), FILL-1 (shared with C02), neighbour operations that delegate to a shared implementation are judged through it with hand-over obligations, CROP-1/2 follow keep helpers.",
+ "C02": "Added in round 2: GEN-BOUND is path-sensitive (one candidate interval per phi edge, counters narrowed by == / != guards, case split over boolean parameters, enclosing loops assumed to run) with interprocedural slice lengths; FAM-3 (the four families' new arrays are made with one length); GEN-LEN conditional growth (an array that can skip an element inside its loop next to a sibling with a fixed count); IDX-6 (a vertex id is never offset by a constant). Added in the last rounds: ORD-2 over the mesh operations and generators (no closure or pointer keeps a per-loop variable beyond its iteration under the pre-1.22 loop semantics go.mod selects), ITER-1 (no accessor iterator is drained with Next() across repetitions without Reset; zero instances on the tree, positive control on every run), FILL-1 through function literals with a floor of two fills, GEN-LEN for arrays grown by a function literal through a captured variable (elements per call x calls). Added in round 6: GRP-1 (an operation that hands input.SetIndices(x) back keeps or drops whole primitives: the indices one keep decision appends, times the trip counts of the counted loops below the decision, are a multiple of the group size of every polygon-list topology the operation admits - all of them unless a used RequireTopology dominates the hand-off; group sizes are read by interpreting Topology.IndexSize; found and fixed: the four attribute filters, /repo 9279a92), PAIR-3 (every return of the attribute-combining helper of Append is dominated by a range over each of the two operands' attribute maps, or lies behind len(operand) == 0). Stated limit: a generator whose vertex rings and index rows range over different slices of one path (seed C02-r61) - the ring count comes from a callee's result length and a phi of two slices, which GEN-BOUND does not follow.",
+ "C03": "Added in round 2: NEIGH-5/6, CROP-1/2, RENUM-1, DEGEN-1 (weld keeps a triangle exactly when its three rounded corners differ: five equality patterns), SPLIT-1 (the accumulator a primitive is appended to is current for the range cursor on every path), AREA-1 (RemoveNullFaces3D keeps exactly area > minArea with area = 1/2 |cross| as an identity), SHAPE-4 refuses spawned element loops whose partition is not decided, IDX-6. Added in the last rounds: NEIGH-7 (the vertex neighbour table links per topology: list topologies advance by their group size and link inside one group, strip / loop topologies link consecutive indices), FILL-1 (shared with C02), neighbour operations that delegate to a shared implementation are judged through it with hand-over obligations, CROP-1/2 follow keep helpers. Added in round 6: PC-1 (the index array of the mesh ToPointCloud builds is the identity over AttributeLength on every path: made with that length and filled with i at i, or grown from empty by appending the loop counter, same-package helpers followed; the receiver's own index buffer reaching the field is reported).",
  "C04": "Added in round 2: UNW-1, CFG-1, NAME-1 (property names travel unchanged in both directions), LAY-4 for every reader builder (offset = sum of the sizes of the preceding properties), REC-1 generalised to batched reads (slot = number of records consumed before this one), SENT-1. Added in the last round: CLAIM-1 identifies the claimed set by role through struct fields and same-package helpers.",
  "C05": "Added in round 2: FORM-1 through selection helpers, ORD-2 over formats/obj, MAT-3 (material identity per name), ENTRY-1 (txt.Writer record typestate), SINK-1 (one sink once a buffering wrapper exists, flushed before return), NAME-2 (names travel whole), MAT-4 (the material range list is positional: patched in place or copied entry for entry). Added in the last round: TOK-R summarises same-package helpers with parameter binding of the token piece.",
  "C06": "Added in round 2: DEDUP-2, REF-2 (every index slot receives a position of the array it refers to, never a loop counter over input data), MINMAX-1 start values and comparison form, INST-1 (instancing extension emitted exactly for n >= 1 with every instance's TRS), EQ-1 (de-dup equality methods compare every field that reaches the document and distinguish nil on both sides: truth table per pointer field). Added in the last rounds: MODE-1 (a primitive's mode follows the mesh topology on cache-hit and cache-miss paths alike), TRS-1 (node translation / rotation / scale reach the document through copies only), INST-2 (a flag that omits an instancing attribute is monotone over the instance loop); REF-2 follows helper returns, EQ-1 executes generic helpers.",
- "C07": "Added in round 2: HDR-FREE (no branch, allocation size, error or panic depends on the 80 header bytes), LATCH-1 (the normals flag is monotone over the record loop and raised by any stored normal), ATTR-OPAQUE (nothing depends on the attribute word), record stores execute in every iteration.",
- "C08": "Added in round 2: LAY-10, NAME-1, batched REC-1, LAY-4 for every builder (shared with C04), SENT-1 (offset sentinel -1 and found-tests that accept offset 0), LINE-1 (every readLine path strips CR), BYTES-1 (payload bytes reach the decoder untouched), TOKSEP-1 (ASCII rows split on runs of white space), UNW-1. Added in the last round: CLAIM-2 summarises same-package membership helpers.",
- "C09": "Added in round 2: DEGEN-1 on the stitch pass, FIELD-TREE/IDX/ALL/CAP (member tables are subscripted by the ids the spatial query returns, every hit is folded, no capture of a per-loop table), FIELD-OUT (finite non-inside default outside all members; link to SYM-ALG), RANGE-1 and SYM-STRIDE follow pure in-package helpers. Added in the last rounds: DOM-1 (declared field domains: sizes non-negative by construction, point boxes expanded by at least the radius), COMB-1 (the fold over the members containing the point visits every member and folds with min), SDF-REF (marching calls only sdf functions C19 decides); per-corner arrays followed one level into a single-site helper.",
+ "C07": "Added in round 2: HDR-FREE (no branch, allocation size, error or panic depends on the 80 header bytes), LATCH-1 (the normals flag is monotone over the record loop and raised by any stored normal), ATTR-OPAQUE (nothing depends on the attribute word), record stores execute in every iteration. Added in round 6: NRM-PATH (every data path from a corner-normal gather to a stored component of the record's normal crosses a length-normalising operation - the all-paths counterpart of NRM-1; fast paths and early helper returns that hand a corner normal or the plain mean to the record are reported; a shortcut guarded by a length test is UNDECIDED).",
+ "C08": "Added in round 2: LAY-10, NAME-1, batched REC-1, LAY-4 for every builder (shared with C04), SENT-1 (offset sentinel -1 and found-tests that accept offset 0), LINE-1 (every readLine path strips CR), BYTES-1 (payload bytes reach the decoder untouched), TOKSEP-1 (ASCII rows split on runs of white space), UNW-1. Added in the last round: CLAIM-2 summarises same-package membership helpers. Added in round 6: STATE-1 (decoding one file is a function of its bytes only: no formats/ply function reachable from the reader entry points writes storage of a package-level variable that the decoder also observes - buffers filled by io.ReadFull and read back, memo maps, reused builders; package tables that are only read hold).",
+ "C09": "Added in round 2: DEGEN-1 on the stitch pass, FIELD-TREE/IDX/ALL/CAP (member tables are subscripted by the ids the spatial query returns, every hit is folded, no capture of a per-loop table), FIELD-OUT (finite non-inside default outside all members; link to SYM-ALG), RANGE-1 and SYM-STRIDE follow pure in-package helpers. Added in the last rounds: DOM-1 (declared field domains: sizes non-negative by construction, point boxes expanded by at least the radius), COMB-1 (the fold over the members containing the point visits every member and folds with min), SDF-REF (marching calls only sdf functions C19 decides); per-corner arrays followed one level into a single-site helper. Added in round 6: CELL-1 (every cell of every block reaches the case-table walk: a skip decision - return, continue, break, a skipped call of the block function in a caller - may depend on geometry, block-map lookups, the missing-neighbour flag and the cell's own eight corner samples only, never on other stored samples of the block: the last layer of a block takes its far corners from neighbouring blocks).",
  "C10": "Added in round 2: CONC-7 (Add/Done pairing: no path from wg.Add to the loop continuation avoids the go statement), SEQ-4 (the parallel variant accumulates into canvas cells exactly as the sequential sibling), SEQ-2/3 inline straight-line helpers. Added in the last round: SYM-PART total-non-negative (the partitioned total is >= 0 on every path; found and fixed: PrimitiveCount -1 on an empty line mesh, /repo a5970ab).",
  "C11": "Added in round 2: NODE-10 (every non-error return of a mutator lies behind a version bump), NODE-11 (decode into a fresh target, commit after success), REFL-2 (reflective enumeration stores a distinct allocation per key). Added in the last round: unexported identifiers are resolved by role from exported anchors.",
  "C12": "Added in round 2: PERSIST-6/7 (edit operations), PERSIST-8 (array-input order: enumeration in index order, numeric or index-free sort key, loader appends), PERSIST-9 (payload types self-delimiting — two known findings in the jbtf dependency), PERSIST-10 (ids unique), PERSIST-11 (no stale cache of the wiring), PERSIST-12 (decode applies what was saved whatever its value), PERSIST-13 (metadata round trip is the identity), PERSIST-14 (ToJSON is computed from the live fields, or every setter invalidates the memo), SAVE-1/2/3 (file replaced with the schema bytes, Save always writes, fresh encoder per save). Added in the last round: unexported identifiers are resolved by role from exported anchors.",
  "C13": "Added in round 2: FRESH-1 on both sides (ApplyMessage does not alias the message, ToMessage returns fresh storage), CONC-5 (unlock deferred before any call that can run node code), CONC-6 (one snapshot per response), CONC-8 (a response is built from this request's own entry-point call), CONC-9 (no go statement in the evaluation call tree of package nodes), VIS-1 (every successful ApplyMessage stores into what Value() reads), VIS-2 (every success path of the POST handler has called UpdateParameter with this request's body), CONC-10 (a node is marked up to date only after Process returned: no such store before the call or in a deferred function), CONC-11 (per-request output state: no response written through a long-lived writer).",
- "C14": "Added in round 2: PRE-3 (the completeness check compares the record counter), CNT-1 (a declared count is never clamped to the data available), REC-WHOLE (count-less record streams decode only windows proven to lie within the bytes read). Added in the last rounds: TOK-2 (a missing token is an error, never a default), TOK-3 (arrays of a counted line-record reader are stored on every accepted line or on none; found and fixed: pts optional columns, /repo b9a5c65).",
- "C15": "Added in round 2: HALF-2, SH-COUNT, DEQ-2 (rotation real part = sqrt(max(0, 1 - |xyz|^2)) as an identity with the clamp), REC-ALL (every record read yields one splat, whatever its bytes). Added in the last round: PLANE-1 follows the planes through Read's same-package call tree, roles by carrier field.",
+ "C14": "Added in round 2: PRE-3 (the completeness check compares the record counter), CNT-1 (a declared count is never clamped to the data available), REC-WHOLE (count-less record streams decode only windows proven to lie within the bytes read). Added in the last rounds: TOK-2 (a missing token is an error, never a default), TOK-3 (arrays of a counted line-record reader are stored on every accepted line or on none; found and fixed: pts optional columns, /repo b9a5c65). Added in round 6: TOK-4 (the token list a record's values are parsed from is produced from this scanner line only - a strings.Fields / Split result, a slice allocated in the same loop iteration, an append onto an emptied base or a re-slice with a computed bound; a token container allocated outside the line loop that is length-tested, read or re-sliced to its full length inside the loop is reported).",
+ "C15": "Added in round 2: HALF-2, SH-COUNT, DEQ-2 (rotation real part = sqrt(max(0, 1 - |xyz|^2)) as an identity with the clamp), REC-ALL (every record read yields one splat, whatever its bytes). Added in the last round: PLANE-1 follows the planes through Read's same-package call tree, roles by carrier field. Added in round 6: QRANGE-1 (interval arithmetic over the SSA expression of every float-to-byte conversion of the .splat writer and its same-package helpers: constants, + - x /, math.Exp >= 0, Max / Min clamps, components of a Clamp(lo, hi) vector, helper results; attribute values are unbounded; the operand must lie in [0, 256) - found and fixed: the four rotation conversions wrapped 1.0 to byte 0, /repo 9142e2c).",
  "C16": "Added in round 2: IDX-1/3/6 on the primitive scopes (tri.go, line.go, point.go), ATTR-2 (trees are scoped over the attribute parameter), CONS-1 on array-typed bucket tables, IDENT-2 (element i of the tree is primitive i), ATTR-3 (the Scope call tree reads attribute data through the attribute parameter only), BOX-RAY (the ray/box slab test implies or refutes max(tmin, near) < min(tmax, far) on every path; d = 0 / NaN / rounding not decided). Added in the last round: IDENT-1 accumulator-parameter form (outside callers start it empty, the recursion continues the running result).",
- "C17": "Added in round 2: FromTheta = (cos t/2, sin t/2 * a/|a|) with sin/cos uninterpreted (single relation sin^2+cos^2=1), partition identities LO(0)=0, HI(w)=LO(w+1), HI(K-1)=len for spawned element loops.",
+ "C17": "Added in round 2: FromTheta = (cos t/2, sin t/2 * a/|a|) with sin/cos uninterpreted (single relation sin^2+cos^2=1), partition identities LO(0)=0, HI(w)=LO(w+1), HI(K-1)=len for spawned element loops. Added in round 6: NORM-1 (a contradiction rule over the transform packages: a vector whose Length()/LengthSquared() is compared with a constant below 1 as a degeneracy guard is not itself a Normalized() result - such a length is 1 or NaN, so the guarded fallback can never be taken; found and fixed: RotationTo for opposite directions along X returned NaN, /repo d335782). RotationTo's antiparallel branch is no longer wholly uncovered: its guard is decided, the axis arithmetic is not.",
  "C19": "",
  "C18": "Added after the first seeds: QUAD-DIMS (each face of the quad cube is sized by the two dimensions perpendicular to its axis and offset by half the third), LATITUDE (angle arguments: longitude step x ring size = 2 pi, latitude step x (rings + 1) = pi), CAP-FLIP-AXIS (a flipped cap is a half turn about the axis that carries cos in ring and rim), SPHERE-RADIUS (every vertex the sphere constructors emit satisfies |p|^2 = r^2). Added in the last round: helpers of modeling/primitives are interpreted with parameter binding while a generator is decided.",
  "C20": "Added after the first seeds: DEL-INPUT (the input slice is never permuted or written before the positions are read), DEL-SAME-POINTS (the predicates run on the input coordinates up to a uniform similarity). Added in the last round: DEL-SUPER-FOLD (the bounding-box fold is a true running min / max for all orderings including the +-Inf start), DEL-STATE (no package-level mutable state in the call tree), DEL-ORIENT-DIFF (every product in the orientation and in-circle predicates multiplies translation-invariant operands: decides the algebraic form, not the rounding error).",
@@ -235,7 +237,7 @@ def main():
             "engine": "polycheck",
             "level_claimed": {"category": "other", "text": (text + " " + ADDED.get(pid, "")).strip(), "design_ref": ref},
             "level_note": note,
-            "technique": "static analysis: " + tech,
+            "technique": "static analysis: " + tech + TECH_ADD.get(pid, ""),
         })
     na = []
     for pid in ALL:
